@@ -8,7 +8,7 @@ Line-protocol operations for the missed-span writer (`src/missed_spans.rs`).
 booleans `0`/`1`.  `<cfg>` is the seven values
 `<hard_tabs> <tab_spaces> <max_width> <comment_width> <lower> <upper> <ed2024>`.
 `rewrite_comment` is `RF.Lists.identifyCommentLight` (normalize_comments = wrap_comments = false),
-`unicode_str_width` is `RF.Lists.strWidth`.
+`unicode_str_width` is `msWidth` below.
 
 model
   ms.write <big> <base> <buffer> <block_indent> <alignment> <last_pos> <end> <entry> <cfg>
@@ -18,6 +18,7 @@ model
         source map, whose buffer was filled with `push_str(buffer)`; positions are byte offsets into `big`
   ms.log <same arguments>   -> the pieces pushed, `<tag><text>` joined by `,` (`_` for none) | panic
         tags: v vertical spaces, b other fixed blanks, c comment, x code, l last snippet
+  ms.width <text>           -> n                 `unicode_str_width` (see `msWidth`)
   ms.slice <text> <a> <b>   -> text | panic      `&text[a..b]`
   ms.lfcrlf <text>          -> <lf>:<crlf>       `count_lf_crlf`
 oracles (judge what the real code wrote: `delta` = the buffer afterwards minus the buffer before)
@@ -37,6 +38,17 @@ def decBool : String → Option Bool
 def rcLight (config : Config) (ed2024 : Bool) : Rc := fun orig _ shape =>
   RF.Lists.identifyCommentLight (RF.Lists.indentString shape.indent config)
     (fun g => RF.Lists.trimLeftPreserveLayout g shape.indent config ed2024) (orig.length + 1) orig
+
+/-- `unicode_str_width` for the texts of the correspondence check: `RF.Lists.strWidth` (every character
+one column, `\n` and a `\r` directly in front of it none) plus one more column for every wide character
+(U+3000 and the CJK blocks).  Combining marks and other zero-width characters are outside. -/
+def isWide (c : Char) : Bool :=
+  let n := c.toNat
+  (0x1100 ≤ n && n ≤ 0x115F) || (0x2E80 ≤ n && n ≤ 0xA4CF && n != 0x303F) || (0xAC00 ≤ n && n ≤ 0xD7A3) ||
+  (0xF900 ≤ n && n ≤ 0xFAFF) || (0xFE30 ≤ n && n ≤ 0xFE6F) || (0xFF00 ≤ n && n ≤ 0xFF60) ||
+  (0xFFE0 ≤ n && n ≤ 0xFFE6)
+
+def msWidth (s : List Char) : Nat := RF.Lists.strWidth s + (s.filter isWide).length
 
 structure Call where
   env : Env
@@ -64,7 +76,7 @@ def decCall : List String → Option Call
     let config : Config := ⟨ht, ts, mw, cw⟩
     let env : Env :=
       { config := config, lower := lo, upper := up, ed2024 := ed, base := base, big := big,
-        rc := rcLight config ed, width := RF.Lists.strWidth }
+        rc := rcLight config ed, width := msWidth }
     let v0 : Vis := { buffer := [], lineNumber := 0, lastPos := lastPos, blockIndent := ⟨b, a⟩, log := [] }
     let v := { v0.push .last buffer with log := [] }
     pure { env := env, vis := v, end_ := end_, entry := entry }
@@ -95,6 +107,9 @@ def handle (op : String) (args : List String) : Option String :=
         | some v =>
           if v.log.isEmpty then "_"
           else String.intercalate "," (v.log.map fun (p : Piece) => tagLetter p.tag ++ encChars p.text))).getD "?"
+  | "ms.width", [t] => some <| (do
+      let t ← decChars t
+      pure (toString (msWidth t))).getD "?"
   | "ms.slice", [t, a, b] => some <| (do
       let t ← decChars t
       let a ← a.toNat?
